@@ -3,6 +3,7 @@ import CarModel.Proofs.Create
 import CarModel.Proofs.FactsTie
 import CarModel.Proofs.InspectFull
 import CarModel.Proofs.Session
+import CarModel.Properties.C07
 /-
 C19 — CLI outputs are valid archives and mean what the library says.
 
@@ -67,6 +68,22 @@ theorem list_output (H : HashFn) (dp ip : Nat) (roots : Option (List Cid)) (bs :
   · simp [listCmd, scanBlockReader_v1 H {} true roots bs ok]
   · simp [listCmd, scanBlockReader_v2 H {} true dp ip roots bs hasIdx fi index ok (by decide) lok]
 
+/-- `car get-block` on a CARv1 without identity blocks, for a non-identity CID: the bytes of a section that
+    carries the CID's multihash, or an error exactly when no section does — C07 end to end behind the command. -/
+theorem get_block_output (roots : Option (List Cid)) (log : List Block) (c : Cid) (r : ReadOnly)
+    (hopen : openReadOnly .blockstore {} .auto (payload roots log) = .ok r)
+    (hwf : (CarHeader.mk roots 1).wf) (hmax : (encodeHeaderBody ⟨roots, 1⟩).length ≤ ({} : WOpts).maxHeader)
+    (h63 : (encodeHeaderBody ⟨roots, 1⟩).length < 2 ^ 63) (hok : ∀ b ∈ log, b.idxOk (roIdxOpts {}))
+    (hsz : (payload roots log).length < 2 ^ 63)
+    (hnoid : ∀ b ∈ log, b.cid.isIdentity = false) (hlog : ∀ b ∈ log, b.getOk {}) (hc : c.isIdentity = false) :
+    (∃ b ∈ log, Spec.sameKey {} b.cid c = true ∧ getBlockCmd (payload roots log) c = .ok b.data) ∨
+    ((∀ b ∈ log, Spec.sameKey {} b.cid c = false) ∧ getBlockCmd (payload roots log) c = .error .notFound) := by
+  have hkept : ∀ b ∈ log, (({} : WOpts).storeIdentity || !b.cid.isIdentity) = true := by
+    intro b hb; simp [hnoid b hb]
+  have hid : identityShortcut {} c = false := by simp [identityShortcut, hc]
+  rcases (C07.opened_v1_has_get {} roots log r hopen hwf hmax h63 hok hsz hkept hlog c hid).2 with ⟨b, hb, hk, hg⟩ | ⟨hn, hg⟩
+  · exact Or.inl ⟨b, hb, hk, by simp [getBlockCmd, hopen, hg]⟩
+  · exact Or.inr ⟨hn, by simp [getBlockCmd, hopen, hg]⟩
 /-- (3) `car detach-index` emits exactly the bytes from the index offset on. -/
 theorem detach_output (maxHeader : Nat) (src p : Bytes) (hd : V2Header)
     (h : openPayload maxHeader src = .ok (2, p, hd)) (hi : hd.indexOffset ≠ 0) :
